@@ -7,7 +7,11 @@ names = sys.argv[1:] or [os.path.basename(d) for d in sorted(glob.glob(os.path.j
 for n in names:
     d = os.path.join(V, "seeded", n)
     m = json.load(open(os.path.join(d, "meta.json")))
-    props = [n.split("-")[0]] + [p for p in m.get("checks_run", {}) if p != n.split("-")[0]]
+    own = n.split("-")[0]
+    prev = dict(m.get("checks_run", {}))
+    prev.update({k: v for k, v in m.get("checks_final", {}).items() if k.startswith("C")})
+    # the property the change is filed under, plus (if that one stayed quiet before) one check that caught it
+    props = [own] + ([p for p, v in prev.items() if p != own and str(v).startswith("CAUGHT")][:1] if not str(prev.get(own, "")).startswith("CAUGHT") else [])
     r = subprocess.run([os.path.join(V, "tools", "mutant_run.py"), "--patch", os.path.join(d, "patch.diff"), "--props", ",".join(props)], capture_output=True, text=True)
     res = {}
     for l in r.stdout.splitlines():
